@@ -92,7 +92,8 @@ func c12Body(t *rapid.T, w *world1) []byte {
 		j, _ := json.Marshal(world.ToGlowAuth(a))
 		return j
 	case 7: // validly signed server authorization (peer down), long location
-		as := ref.AuthServer{PublicKey: keyFor(fmt.Sprintf("c12-peer-%d", rapid.IntRange(0, 3).Draw(t, "pk"))).Pub, Banned: rapid.Bool().Draw(t, "b"),
+		// few keys and mostly bans, so that histories contain "known, banned, announced again"
+		as := ref.AuthServer{PublicKey: keyFor(fmt.Sprintf("c12-peer-%d", rapid.IntRange(0, 1).Draw(t, "pk"))).Pub, Banned: rapid.IntRange(0, 2).Draw(t, "b") != 0,
 			Location: rapid.SampledFrom([]string{"127.0.0.1", "", "no-such-host.invalid", strings.Repeat("h", 255), strings.Repeat("h", 300), "127.0.0.1:99999", "[::1", "%zz"}).Draw(t, "loc"), HttpPort: rapid.SampledFrom([]uint16{0, 1, 9, 65535}).Draw(t, "hp"), TcpPort: drawU16(t, "tp"), UdpPort: drawU16(t, "up")}
 		as.Sig = ref.Sign(s.gca, as.SigningBytes())
 		j, _ := json.Marshal(world.ToGlowServer(as))
@@ -333,6 +334,13 @@ func TestC12Inputs(t *testing.T) {
 				s.S.S.VerifInstallAuthorizedServer(world.ToGlowServer(as))
 			}
 			e.hist = append(e.hist, "authorized peers that are down installed")
+		}
+		if rapid.Bool().Draw(t, "bannedPeerKnown") {
+			// a peer the server already knows as banned: further announcements for its key will arrive
+			as := ref.AuthServer{PublicKey: keyFor("c12-peer-0").Pub, Banned: true, Location: "127.0.0.1", HttpPort: 1, TcpPort: 1, UdpPort: 1}
+			as.Sig = ref.Sign(s.gca, as.SigningBytes())
+			s.S.S.VerifInstallAuthorizedServer(world.ToGlowServer(as))
+			e.hist = append(e.hist, "a banned peer installed")
 		}
 		n := rapid.IntRange(60, 150).Draw(t, "inputs")
 		for i := 0; i < n; i++ {
